@@ -447,6 +447,8 @@ def find_slice_cursor_loops(fn):
 class Engine:
     _next_frame = [0]
 
+    skip_debug_only = True
+
     def __init__(self, fn, facts=None, model=None, cut_edges=(), stop_blocks=(), visit_limit=1,
                  max_paths=MAX_PATHS, opaque_calls=True, depth=0, inline=None, max_depth=5, stack=(), desugar=None, worklist_counters=False):
         Engine._next_frame[0] += 1
@@ -1014,6 +1016,36 @@ class Engine:
             if kv == good:
                 return [(pay, None)]
             return [(d, [(("isvar", v, bad), True)]), (pay, [(("isvar", v, good), True)])]
+        if re.search(r"option::Option::<.*>::transpose$", nm) and len(args) == 1:
+            # `Option<Result<T, E>>::transpose`: None -> Ok(None), Some(Ok(x)) -> Ok(Some(x)), Some(Err(e)) -> Err(e)
+            OPT_, RES_ = "std::option::Option", "std::result::Result"
+            v = args[0]
+
+            def cases(val, good, bad):
+                """[(variant, payload or None, assumptions)] consistent with what is known about val"""
+                kv_ = val[2] if val[0] == "adt" else self.known_variant(path, val)
+                pay_ = val[3][0] if (val[0] == "adt" and val[2] == good) else ("field", ("downcast", val, good), "0")
+                if kv_ == good:
+                    return [(good, pay_, [])]
+                if kv_ == bad:
+                    return [(bad, None, [])]
+                return [(bad, None, [(("isvar", val, bad), True)]), (good, pay_, [(("isvar", val, good), True)])]
+            outs_ = []
+            for var, inner, as1 in cases(v, "Some", "None"):
+                if var == "None":
+                    outs_.append((("adt", RES_, "Ok", (("adt", OPT_, "None", ()),)), as1 or None))
+                    continue
+                for var2, x, as2 in cases(inner, "Ok", "Err"):
+                    if var2 == "Ok":
+                        outs_.append((("adt", RES_, "Ok", (("adt", OPT_, "Some", (x,)),)), (as1 + as2) or None))
+                    else:
+                        e_ = inner[3][0] if inner[0] == "adt" else ("field", ("downcast", inner, "Err"), "0")
+                        outs_.append((("adt", RES_, "Err", (e_,)), (as1 + as2) or None))
+            return outs_
+        if re.search(r"option::Option::<.*>::replace$", nm) and len(args) == 2 and args[0][0] == "ref":
+            # `opt.replace(v)`: the slot becomes Some(v), the old value is returned
+            loc = args[0][1]
+            return [(self.read_loc(path, loc), None, [(loc, ("adt", "std::option::Option", "Some", (args[1],)))])]
         if re.search(r"mem::take::<.*>$", nm) and len(args) == 1 and args[0][0] == "ref":
             loc = args[0][1]
             old_v = self.read_loc(path, loc)
@@ -1150,7 +1182,8 @@ class Engine:
             if self.inline:
                 ok = self.inline(callee.name) if callable(self.inline) else bool(re.search(self.inline, callee.name))
             if not ok:
-                ok = is_unknown_helper(callee) or re.search(ALWAYS_INLINE, callee.name) is not None
+                # (a twin of a known function is read as a call of that function — except inside that function, whose body it is)
+                ok = (is_unknown_helper(callee) and (callee.name not in M.TWINS or M.TWINS[callee.name] in self.stack)) or re.search(ALWAYS_INLINE, callee.name) is not None
             if ok:
                 return (callee, list(args))
         return None
@@ -1498,7 +1531,7 @@ class Engine:
                 if dead_:
                     return [dead(p_) for p_ in dead_] + ([finish(p_, ("array", d_)) for d_, p_ in partial] if False else []) if not partial else None
             return [finish(p_, ("array", d_)) for d_, p_ in partial]
-        m = re.search(r"option::Option::<.*>::(map|map_or|map_or_else|and_then|is_some_and|is_none_or|filter|unwrap_or_else|ok_or_else|or_else)(::<.*>)?$", nm)
+        m = re.search(r"option::Option::<.*>::(map|map_or|map_or_else|and_then|is_some_and|is_none_or|filter|unwrap_or_else|ok_or_else|or_else|inspect)(::<.*>)?$", nm)
         if m and args:
             meth = m.group(1)
             v = self.deref_val(path, args[0]) if args[0][0] == "ref" else args[0]
@@ -1508,7 +1541,7 @@ class Engine:
             outs = []
             for var, p in variants(v, "Some", "None"):
                 if var == "None":
-                    if meth in ("map", "and_then", "filter"):
+                    if meth in ("map", "and_then", "filter", "inspect"):
                         outs.append(finish(p, ("adt", OPT, "None", ())))
                     elif meth == "map_or":
                         outs.append(finish(p, args[1]))
@@ -1537,7 +1570,7 @@ class Engine:
                     if meth == "or_else":
                         outs.append(finish(p, v))
                         continue
-                    xa = ("ref", ("loc", x, ()), False) if meth in ("filter",) else x
+                    xa = ("ref", ("loc", x, ()), False) if meth in ("filter", "inspect") else x
                     rs = self.call_closure(p, bb, f, [xa])
                     if rs is None:
                         return None
@@ -1546,6 +1579,8 @@ class Engine:
                             outs.append(dead(sp))
                         elif meth == "map":
                             outs.append(finish(sp, ("adt", OPT, "Some", (r,))))
+                        elif meth == "inspect":
+                            outs.append(finish(sp, v if v[0] == "adt" else ("adt", OPT, "Some", (x,))))      # (the closure only looks at the payload; the option is handed on)
                         elif meth == "filter":
                             outs.extend(on_bool(sp, r, lambda q: finish(q, ("adt", OPT, "Some", (x,))), lambda q: finish(q, ("adt", OPT, "None", ()))))
                         else:
@@ -1922,6 +1957,12 @@ class Engine:
             path.events.append(("assert", bb, t["msg"], c, opinfo))
             return [go(t["target"], path)]
         if k == "switch":
+            if Engine.skip_debug_only and t.get("targets") and re.search(r"(^|::)cfg!$", str(t.get("exp", ""))):
+                # `if cfg!(debug_assertions) { .. }` / `debug_assert!(..)`: code that exists in debug builds only.  It is effect-free
+                # (premise <Cxx>.z, rules/profile.py) and its panic sites are accounted by the panic inventory, so the shape rules
+                # follow the release build's path
+                path.events.append(("debug-only-skipped", bb))
+                return [go(t["targets"][0][1], path)]
             d = self.operand(path, t["discr"])
             known = self.decide(path, d)
             targets = t["targets"]
